@@ -751,6 +751,42 @@ nw_fns!(
     nw16: BUint<4>, BInt<4> => BUint<8>, BInt<8>
 );
 
+// As between the primitive integers themselves (bnum defines these "for consistency")
+macro_rules! prim_prim_inner {
+    ($rec:expr, $r:expr, $s:ident, $sw:literal, $ss:tt; $($d:ident, $dw:literal, $ds:tt);*) => {
+        $(
+            {
+                let pn = $sw / 8;
+                for b in pair_values($r, pn, $dw, 0) {
+                    let mut full = [0u8; 16];
+                    let ext = if $ss && b[pn - 1] & 0x80 != 0 { 0xffu8 } else { 0 };
+                    for k in 0..16 {
+                        full[k] = if k < pn { b[k] } else { ext };
+                    }
+                    let pv = u128::from_le_bytes(full) as $s;
+                    $rec.sem = "C09";
+                    $rec.fam("as", vec![Arg::Int { w: $sw, s: $ss, v: b.clone() }, Arg::Int { w: $dw, s: $ds, v: vec![] }, tag(concat!(stringify!($s), ">", stringify!($d)))]);
+                    $rec.form("as_", || Out::Val(prim_enc_u(As::as_::<$d>(pv) as u128, $dw)));
+                    $rec.form("cast_from", || Out::Val(prim_enc_u(<$d as CastFrom<$s>>::cast_from(pv) as u128, $dw)));
+                }
+            }
+        )*
+    };
+}
+macro_rules! prim_prim_outer {
+    ($rec:expr, $r:expr; $($s:ident, $sw:literal, $ss:tt);*) => {
+        $( prim_list!(prim_prim_inner; $rec, $r, $s, $sw, $ss); )*
+    };
+}
+fn prim_prim_events() {
+    with_ctx(|c| {
+        let mut rec = Rec::new();
+        let mut r = Rng::new(c.cli.seed ^ 0x9090);
+        prim_list!(prim_prim_outer; rec, &mut r);
+        c.sink.merge(0, false, "bnum", vec![("prim", rec)]);
+    });
+}
+
 /// the type aliases have exactly the named widths
 fn alias_events() {
     use bnum::types::*;
@@ -786,6 +822,7 @@ fn main() {
             for_matrix!(prim_body);
             for_matrix!(per_type);
             for_giants!(prim_body);
+            prim_prim_events();
         }
         "C13" => {
             pair_types!(for_pairs; pair_body);
